@@ -84,7 +84,7 @@ Ltac xstep :=
   | |- context [exec1 ?a ?r ?c ?e ?s] =>
     let R := fresh "R" in let HR := fresh "HR" in
     remember r as R eqn:HR;
-    let v := eval lazy in (exec1 a R c e s) in change (exec1 a R c e s) with v;
+    let v := eval lazy -[write_back] in (exec1 a R c e s) in change (exec1 a R c e s) with v;
     rewrite HR; clear HR R
   end; cbv beta iota.
 
@@ -133,6 +133,16 @@ Ltac step_tac scr a Ha n K :=
     first [ eexists; split; [|lazy; reflexivity]; reflexivity
           | exists (repeat MNone K); split; [reflexivity|vm_compute; reflexivity] ].
 
+Definition opt_coll (o : option nat) : mval := match o with Some c => MArgV (ACollator c) | None => MNone end.
+Definition env_set (s : slots) (scr : list mval) : menv :=
+  [MArgV ANotation; opt_slice (s_values s); opt_seq (s_seq s); src_of s; opt_coll (s_coll s)] ++ scr.
+
+(* a list of scratch locals of a length that is computed from the regenerated table *)
+Ltac explode_dyn scr L :=
+  vm_compute in L;
+  repeat (destruct scr as [|?x scr]; [discriminate L|]; cbn [length] in L; apply eq_add_S in L);
+  destruct scr; [|discriminate L].
+
 (* values of the class constructors the source branches start from (class_ctor is opaque in the late files) *)
 Lemma class_make_list : forall t, class_ctor FList t CMake = Ret (OLst []). Proof. reflexivity. Qed.
 Lemma class_make_set : forall t, class_ctor FSet t CMake = Ret (OSet 0 []). Proof. reflexivity. Qed.
@@ -170,7 +180,7 @@ Ltac kill_stuck :=
           | |- context [array_fill ?a ?b ?c ?d] => destruct (array_fill a b c d)
           | |- context [set_add_all ?z ?r ?a ?l] => destruct (set_add_all z r a l)
           end).
-Ltac after_loop := timeout 20 rhs_open; timeout 30 (lazy; class_vals; lazy); timeout 20 kill_stuck; timeout 30 fin2.
+Ltac after_loop := timeout 30 rhs_open; timeout 30 kill_stuck; timeout 60 (lazy; class_vals; lazy); timeout 30 kill_stuck; timeout 60 fin2.
 
 Ltac leaf := cbn [plus]; timeout 60 to_loop; after_loop.
 Ltac seq_cases2 pv :=
